@@ -194,6 +194,8 @@ func (r *Run) global(g *ssa.Global) value {
 			cell = r.newToken("stderr", nil)
 		case "os.Stdout":
 			cell = r.newToken("stdout", nil)
+		case "io.Discard":
+			cell = iface{v: r.newToken("discard", nil)}
 		case "flag.Usage", "flag.CommandLine", "os.Args":
 			cell = zero(mustDeref(g.Type()))
 		default:
